@@ -178,6 +178,35 @@ pub fn run(tier: Tier) -> i32 {
         }
     }
 
+    // long sequences (the counter must not depend on the number of members)
+    for (prefix, n) in [(vec![256u16], 255usize), (vec![256], 256), (vec![256], 257), (vec![128, 256, 128], 253), (vec![200, 56, 200, 56], 253), (vec![8], 1000), (vec![248, 8], 700), (vec![256], 70000)] {
+        let mut seq: Vec<u16> = Vec::new();
+        if prefix.len() == 1 {
+            seq = vec![prefix[0]; n];
+        } else if prefix.len() == 2 {
+            for k in 0..n {
+                seq.push(prefix[k % 2]);
+            }
+        } else {
+            seq.extend(prefix.iter());
+            seq.extend(std::iter::repeat(256u16).take(n));
+        }
+        slot_calls += 1;
+        let want = refdet::slots(&seq.iter().map(|x| *x as u32).collect::<Vec<_>>());
+        let got = util::guarded(|| storage_slots_used(seq.clone()));
+        if got != Ok(want) {
+            run.violation(Violation {
+                site: format!("storage_slots_used:long:{}", seq.len()),
+                input: format!("{:?} followed by {} more members ({} in total)", &seq[..seq.len().min(6)], seq.len().saturating_sub(6), seq.len()),
+                expected: format!("{} slots", want),
+                observed: format!("{:?}", got),
+                size: seq.len(),
+                unit_test: String::new(),
+                extra: json!({}),
+            });
+        }
+    }
+
     // ---------------------------------------------------------------- (iii) detectors on parsed contracts / structs
     let ds = dets::by_names(&["pack_storage_variables", "pack_struct_variables"]);
     if ds.len() != 2 {
@@ -294,6 +323,25 @@ pub fn run(tier: Tier) -> i32 {
         let (t, o) = render_l1(&toks);
         (format!("sizes:{:?}:variant{}", s, variant), t, o)
     });
+    let mut items = items;
+    for (label, prefix) in [("packable", vec!["uint128", "uint256", "uint128"]), ("optimal", vec!["uint200", "uint56", "uint200", "uint56"]), ("packable-bools", vec!["bool", "uint256", "bool"]), ("optimal-wide", vec!["uint256"])] {
+        for n in [250usize, 253, 254, 255, 256, 300] {
+            let mut members = String::new();
+            let mut k = 0;
+            for t in &prefix {
+                members.push_str(&format!("{} m{} ; ", t, k));
+                k += 1;
+            }
+            for _ in 0..n {
+                members.push_str(&format!("uint256 m{} ; ", k));
+                k += 1;
+            }
+            let text = format!("pragma solidity 0.8.19 ; contract Long {{ {}}} struct LongS {{ {}}}", members, members);
+            let toks: Vec<String> = text.split(' ').filter(|x| !x.is_empty()).map(|x| x.to_string()).collect();
+            let (t, o) = render_l1(&toks);
+            items.push((format!("long:{}:{}", label, n), t, o));
+        }
+    }
     let sw = refdet::sweep_texts(&items, &ds, Mode::Semantic);
     require_must(&mut run, &sw, &["pack_storage_variables", "pack_struct_variables"], "size-sequences");
     let sample = json!({"label": items[items.len() / 2].0, "text": items[items.len() / 2].1});
